@@ -2355,14 +2355,17 @@ where
         let mut offset_table = None;
 
         let mut fragments = C::new();
+        let mut item_has_value = false;
 
         for token in dataset {
             match token.context(ReadTokenSnafu)? {
                 DataToken::OffsetTable(table) => {
                     offset_table = Some(table);
+                    item_has_value = true;
                 }
                 DataToken::ItemValue(data) => {
                     fragments.push(data);
+                    item_has_value = true;
                 }
                 DataToken::ItemEnd => {
                     // at the end of the first item ensure the presence of
@@ -2370,7 +2373,11 @@ where
                     // are seen as compressed fragments
                     if offset_table.is_none() {
                         offset_table = Some(Vec::new())
+                    } else if !item_has_value {
+                        // a zero-length item after the offset table is an empty fragment
+                        fragments.push(Vec::new());
                     }
+                    item_has_value = false;
                 }
                 DataToken::ItemStart { len: _ } => { /* no-op */ }
                 DataToken::SequenceEnd => {
